@@ -322,6 +322,114 @@ def r4_prefix(chk, prog):
     chk.require(count >= 2, 'startsWith: only %d decided paths' % count)
 
 
+def key_containers(prog):
+    c = prog.classes.get('celma::prog_args::Handler')
+    if not c:
+        raise AnalysisBroken('class Handler not found')
+    return [f['name'] for f in c['fields'] if f['t'].endswith('detail::ArgumentContainer')]
+
+
+def r5_one_key_space(chk, prog):
+    """A handler keeps its keys in more than one container (normal arguments, sub-group arguments).  'Within one
+    handler a key designates at most one argument' therefore needs (a) every addition to one container to be checked
+    against the others, (b) a lookup never to use an abbreviation match of one container without consulting the
+    others: an exact match elsewhere wins, another abbreviation is ambiguous."""
+    conts = key_containers(prog)
+    chk.require(len(conts) >= 2, 'key containers of Handler: %s' % conts)
+    handler_fns = [f for f in prog.functions if f.classq == 'celma::prog_args::Handler' and f.body is not None]
+    # (a) definition
+    n_add = 0
+    for f in handler_fns:
+        for c in f.calls():
+            if not (callee_is(c, 'addArgument') and 'ArgumentContainer' in c.get('callee', '')):
+                continue
+            own = field_name(object_of(c))
+            if own not in conts:
+                continue
+            n_add += 1
+            cfg = f.cfg
+            pos = cfg.position(c)
+            for other in conts:
+                if other == own:
+                    continue
+
+                def is_mix(n, own=own, other=other):
+                    if n.get('k') not in CALL_KINDS or not callee_is(n, 'checkArgMix'):
+                        return False
+                    fields = {field_name(object_of(n))} | {field_name(a) for a in call_args(n)}
+                    return own in fields and other in fields
+                bad = cfg.can_reach_exit((pos[0], pos[1] + 1), lambda p, e: isinstance(e, int) and
+                                         f.node(e) is not None and is_mix(f.node(e)))
+                chk.check(not bad, 'R5', f.name, 'an argument added to %s is checked against the keys in %s on every '
+                          'path' % (own, other), f.loc(c), 'a return is reachable without checkArgMix between the two '
+                          'containers')
+    chk.require(n_add >= 2, 'additions to the key containers found: %d' % n_add)
+    # (b) lookup
+    fs = [f for f in handler_fns if f.short == 'processArg']
+    chk.require(len(fs) == 1, 'Handler::processArg not found')
+    f = fs[0]
+    cfg = f.cfg
+    finds = [c for c in f.calls() if callee_is(c, 'findArg') and field_name(object_of(c)) in conts]
+    chk.require(len(finds) >= 2, 'processArg: lookups in the key containers: %d' % len(finds))
+    first = [c for c in finds if all(c is d or cfg.node_dominates(c, d) for d in finds)]
+    chk.require(len(first) == 1, 'processArg: no first lookup')
+    l1 = first[0]
+    a = field_name(object_of(l1))
+    # the variable that receives the result
+    var = None
+    for n in f.walk():
+        if n.get('k') == 'DeclStmt':
+            for d in n.get('decls', []):
+                if isinstance(d.get('init'), dict) and any(x is l1 for x in walk(d['init'])):
+                    var = d['name']
+    chk.require(var is not None, 'processArg: the result of the first lookup is not stored in a variable')
+    uses = [c for c in f.calls() if callee_is(c, 'handleIdentifiedArg') and call_args(c) and
+            mentions_var(call_args(c)[0], var) and cfg.node_dominates(l1, c) and
+            not any(cfg.node_dominates(l1, d) and cfg.node_dominates(d, c) for d in finds if d is not l1 and
+                    any(isinstance(dd.get('init'), dict) and any(x is d for x in walk(dd['init']))
+                        for n in f.walk() if n.get('k') in ('DeclStmt',) for dd in n.get('decls', [])
+                        if dd['name'] == var))]
+    # assignments  var = other.findArg(...)  re-bind the variable: uses after them belong to that lookup
+    rebinding = []
+    for n in f.walk():
+        if n.get('k') == 'BinaryOperator' and n.get('op') == '=' and any(x is d for d in finds if d is not l1
+                                                                             for x in walk(n)):
+            rebinding.append(n)
+    uses = [c for c in uses if not any(cfg.node_dominates(r, c) for r in rebinding)]
+    chk.require(uses, 'processArg: the result of the first lookup is never dispatched')
+
+    def exact_test(n):
+        return n.get('k') in CALL_KINDS and (n.get('callee') or '').endswith('ArgumentKey::operator==') and \
+            any(mentions_var(x, var) for x in [object_of(n)] + call_args(n) if x is not None)
+    p1 = cfg.position(l1)
+
+    def non_null_test(c):
+        # var != nullptr   (the dispatch needs a match: edges on which the variable is null are not on its way)
+        if c.get('k') != 'BinaryOperator' or c.get('op') != '!=':
+            return False
+        x, y = children(c)
+        return mentions_var(x, var) and strip_all_casts(y).get('k') in ('CXXNullPtrLiteralExpr', 'GNUNullExpr',
+                                                                        'IntegerLiteral')
+    null_edges = exempt_edges(f, non_null_test, False)
+    for c in uses:
+        seen = cfg.reach((p1[0], p1[1] + 1), lambda p, e: isinstance(e, int) and f.node(e) is not None and
+                         exact_test(f.node(e)), blocked_edges=null_edges)
+        direct = cfg.position(c) in seen
+        others_ok = True
+        for other in conts:
+            if other == a:
+                continue
+            consulted = [d for d in finds if field_name(object_of(d)) == other and cfg.node_dominates(l1, d) and
+                         cfg.reachable_from(cfg.position(d), cfg.position(c)) and
+                         any(exact_test(x) and cfg.node_dominates(x, d) for x in f.walk())]
+            others_ok = others_ok and bool(consulted)
+        chk.check(not direct and others_ok, 'R5', f.name, 'a match found in %s is used only after its exactness was '
+                  'tested and, for an abbreviation, %s was consulted (exact key wins, second abbreviation is '
+                  'ambiguous)' % (a, ', '.join(x for x in conts if x != a)), f.loc(c),
+                  'the match is dispatched without an exactness test' if direct else
+                  'no lookup in the other container between the exactness test and the dispatch')
+
+
 def run(chk):
     prog, units = rules.prog_args_program()
     chk.units = units
@@ -343,3 +451,5 @@ def run(chk):
     r2(chk, prog)
     r3(chk, prog)
     r4_prefix(chk, prog)
+    chk.rule('R5', 'the key containers of a handler form one key space (definition and lookup)', 3)
+    r5_one_key_space(chk, prog)
